@@ -76,9 +76,11 @@ def cases(draw):
             # before anything is built or installed
             'regen': draw(st.sampled_from([None, None, 'forced', 'touch',
                                            'touch-install'])),
+            # (stw: a static library that itself needs the shared sa)
             'prog_libs': draw(st.sampled_from([['sb'], ['sa', 'st'],
                                                ['sv', 'sb'], ['st'],
-                                               ['sb', 'sv', 'st']]))}
+                                               ['sb', 'sv', 'st'], ['stw'],
+                                               ['stw', 'sv']]))}
 
 
 SCRIPT_HEAD = """\
@@ -87,6 +89,7 @@ sa = shared_library('sa', ['sa.c'])
 sb = shared_library('sb', ['sb.c'], libs=[sa])
 st = static_library('st', ['st.c'])
 sv = shared_library('sv', ['sv.c'], version='1.2.3', soversion='1')
+stw = static_library('stw', ['stw.c'], libs=[sa])
 prog = executable('prog', ['prog.c'], libs=[{prog_libs}])
 prog2 = executable('tools/prog2', ['prog2.c'], libs=[sa])
 hdr = header_file('api.h')
@@ -99,7 +102,9 @@ data = generic_file('data/blob.bin')
 
 
 def render(case, src):
-    vals = {'sa': 1, 'sb': 2 + 1, 'st': 4, 'sv': 8}
+    vals = {'sa': 1, 'sb': 2 + 1, 'st': 4, 'sv': 8, 'stw': 16 + 1}
+    sandbox.write_file(os.path.join(src, 'stw.c'),
+                       'int f_sa(void);\nint f_stw(void){return 16+f_sa();}\n')
     sandbox.write_file(os.path.join(src, 'sa.c'),
                        'int f_sa(void){return 1;}\n')
     sandbox.write_file(os.path.join(src, 'sb.c'),
@@ -187,7 +192,7 @@ def expected_tree(case, idirs):
             # only an explicit install() includes the link-time name; as a
             # run-time dependency the soname is all that is needed
             put('libdir', sub, 'libsv.so', ('l', 'libsv.so.1'))
-    runtime = {'sa': [], 'sb': ['sa'], 'sv': [], 'st': []}
+    runtime = {'sa': [], 'sb': ['sa'], 'sv': [], 'st': [], 'stw': ['sa']}
 
     def deps_of(libs):
         seen = []
@@ -195,6 +200,9 @@ def expected_tree(case, idirs):
         while stack:
             l = stack.pop()
             if l in seen or l == 'st':
+                continue
+            if l == 'stw':          # static: only what it needs is installed
+                stack.extend(runtime[l])
                 continue
             seen.append(l)
             stack.extend(runtime[l])
